@@ -181,7 +181,7 @@ func c06Run(c Case) (Result, error) {
 			}
 			out, err := crypto.BLSReconstructThresholdSignature(in.N, in.T, sh, sub)
 			if err != nil {
-				return Result{}, fmt.Errorf("reconstruction failed: %v", err)
+				return Result{}, implViolation("reconstruction failed: %v", err)
 			}
 			if ok, _ := gpk.Verify(out, msg, hs); !ok {
 				fail("reconstructed signature does not verify under the group key")
